@@ -710,6 +710,47 @@ def fixture_findings(exe):
 
 # ------------------------------------------------------------------------------------------ pipeline hooks
 
+def big_member_findings(exe, workdir):
+    """a member of 2^29 + 2 bytes (MSZIP, every block the same 32 KiB pattern): -t must print the MD5 of exactly
+    those bytes (the byte count crosses 2^29, where the bit length no longer fits 32 bits), -l the size"""
+    import zlib, struct as st, tempfile
+    fs = []
+    pat = bytes((i * 7) & 255 for i in range(256)) * 128
+    def ck(d):
+        co = zlib.compressobj(9, zlib.DEFLATED, -15); return b"CK" + co.compress(d) + co.flush()
+    N = (1 << 29) // 32768; tail = b"tail!"
+    big = (1 << 29) + 2
+    cab, layout = minicab.build([(1, [(ck(pat), 32768), (ck(tail), len(tail))])],
+                                [dict(name=b"big.bin", length=big, offset=0, folder=0), dict(name=b"rest.bin", length=3, offset=big, folder=0)])
+    (o0, p0), (o1, p1) = layout["blocks"][0]
+    first = cab[o0:o1]
+    cab = bytearray(cab[:o1] + first * (N - 1) + cab[o1:])
+    st.pack_into("<I", cab, 8, len(cab))
+    fo = layout.get("folders_off", None)
+    # CFFOLDER: coffCabStart(4) cCFData(2) typeCompress(2); locate it by its coffCabStart field
+    k = bytes(cab).find(st.pack("<IHH", o0, 2, 1))
+    if k < 0: return [Finding("mismatch", "big-member cabinet: folder entry not found")]
+    st.pack_into("<H", cab, k + 4, N + 1)
+    h = hashlib.md5()
+    for _ in range(N): h.update(pat)
+    h.update(tail[:2]); want = h.hexdigest().encode()
+    d = tempfile.mkdtemp(prefix="big17-", dir=workdir)
+    try:
+        open(os.path.join(d, "big.cab"), "wb").write(bytes(cab))
+        r = run_bin(exe, [b"-t", b"big.cab"], d, 0o022); STATS["runs"] += 1
+        if r.returncode != 0 or b"  big.bin  OK" not in r.stdout:
+            fs.append(Finding("violation", f"member of 2^29+2 bytes: -t exit {r.returncode}, output {r.stdout[-200:]!r} {r.stderr[-200:]!r}"))
+        elif want not in r.stdout:
+            got = r.stdout.split(b"big.bin  OK")[1].split()[0]
+            fs.append(Finding("violation", f"member of 2^29+2 bytes: -t reports MD5 {got.decode()} but the member's bytes have MD5 {want.decode()} (and says OK)"))
+        r = run_bin(exe, [b"-l", b"big.cab"], d, 0o022); STATS["runs"] += 1
+        if b"%10d |" % big not in r.stdout:
+            fs.append(Finding("violation", f"member of 2^29+2 bytes: -l does not list its size: {r.stdout[-200:]!r}"))
+    finally:
+        shutil.rmtree(d, ignore_errors=True)
+    STATS["big_member"] = 1
+    return fs
+
 def generate(ctx):
     return iter(())
 
@@ -779,6 +820,9 @@ def custom_run(ctx, res, cw):
     for f in fixture_findings(exe):
         p = cw.add(["# C17 fixture run", "# " + f.text[:200]], dict(family="modes.fixture"))
         viol.append((p, dict(family="modes.fixture"), f))
+    for f in big_member_findings(exe, cw.dir):
+        p = cw.add(["# C17 big-member run (checks/c17.py big_member_findings builds the cabinet: 16384 identical MSZIP blocks)", "# " + f.text[:200]], dict(family="modes.big-member"))
+        (viol if f.kind == "violation" else mism).append((p, dict(family="modes.big-member"), f))
     res.cov["evaluations"] += STATS["runs"]
     res.cov["traces_validated_against_impl"] += STATS.get("selection_model_vs_binary", 0)
     try: os.rmdir(FSROOT)
